@@ -127,6 +127,8 @@ class World:
             for p in ms['params']:
                 if p['limits'] and p['check'] and not ms['split_limits']:
                     p['check'] = None
+                if p['limits'] and not p['check'] and ms['split_limits'] and rng.random() < 0.5:
+                    p['check'] = 'reject-odd-length'      # a hook of the parent class that never objects to numbers
                 if p['limits'] and p['check']:
                     r.count('params_with_limits_added_beside_an_inherited_check_hook')
         try:
@@ -303,6 +305,9 @@ class World:
         lim = [x for x in ms['params'] if (ms['name'], x['name']) in limits and x['export']]
         if lim and rng.random() < 0.4:
             p = rng.choice(lim)       # histories that move the dynamic limits and then probe them
+            hooked = [x for x in lim if x['check']]
+            if hooked and rng.random() < 0.5:
+                p = rng.choice(hooked)    # ... in particular those whose parent class already has a check hook
         wn = modgen.wire_name(p)
         tk = p['spec']['type']
         valid = gen_dt.gen_valid(p['spec'], rng)
